@@ -59,9 +59,12 @@ def store_level(ctx):
         # large cache and without restarts - Chain.PrepareCache (restart, cache window run empty) fails on the tree of
         # 2026-09-24 while the tip is within the cache size of such a genesis block (reported as
         # store:genesis-height:step-fails:* by VERIF_EXPERIMENTAL=1)
-        confs = [(2, 0, False), (3, 0, False), (515, 0, False), (515, 70000, True)]
+        confs = [(2, 0, False), (3, 0, False), (515, 0, False)]
         if experimental:
-            confs += [(2, 70000, False), (3, 70000, False), (515, 70000, False)]
+            # (the ordinary run since /repo a6f1c23 "the block cache is prepared from the genesis height": bin/check sets the switch)
+            confs += [(2, 70000, False), (515, 70000, False)]
+        else:
+            confs += [(515, 70000, True)]
         for mc, gh, stop in confs:
             cf = ctx.path("store_cfg.json"); json.dump(dict(maxCache=mc, keep=keep, genesisHeight=gh, stopAtRestart=stop), open(cf, "w"))
             of = ctx.path("store_res.json")
